@@ -225,19 +225,48 @@ def rule_fragment_canonical(ck, repo, R):
     ck.rule(R, 'linear fragments are keyed by identifier tuples made direction-free by comparing the tuple with its reverse; atom '
                'numbers never enter a hashed key')
     f = repo.func('chython.algorithms.fingerprints.linear:LinearFingerprint._fragments')
-    s = src(f.node)
-    ck.decide('rev_var = var[::-1]' in s and ('if var > rev_var' in s or 'if rev_var < var' in s), R, 'direction-canonical', None,
-              '_fragments no longer canonicalises a path against its reverse on identifier tuples', file=f.file, line=f.lineno, func=f.qualname)
+    loc = dict(file=f.file, line=f.lineno, func=f.qualname)
+    # value provenance inside _fragments, whatever the local names: builder list -> tuple(builder) -> its reverse
+    defs = {}
+    for n in ast.walk(f.node):
+        if isinstance(n, ast.Assign) and len(n.targets) == 1 and isinstance(n.targets[0], ast.Name):
+            defs.setdefault(n.targets[0].id, []).append(n.value)
+        elif isinstance(n, ast.NamedExpr):
+            defs.setdefault(n.target.id, []).append(n.value)
+    builders = {k for k, vs in defs.items() if any(isinstance(v, ast.List) for v in vs)}
+    tupled = {k for k, vs in defs.items() if any(isinstance(v, ast.Call) and src(v.func) == 'tuple' and len(v.args) == 1 and src(v.args[0]) in builders for v in vs)}
+    rev = {k for k, vs in defs.items() if any(isinstance(v, ast.Subscript) and src(v.value) in tupled and src(v.slice) == '::-1' for v in vs)}
+
+    def name_of(e):
+        return e.target.id if isinstance(e, ast.NamedExpr) else e.id if isinstance(e, ast.Name) else None
+    shape = False
+    for n in ast.walk(f.node):
+        if isinstance(n, ast.If) and isinstance(n.test, ast.Compare) and len(n.test.ops) == 1 and isinstance(n.test.ops[0], (ast.Gt, ast.Lt, ast.GtE, ast.LtE)):
+            l, r = name_of(n.test.left), name_of(n.test.comparators[0])
+            if {l, r} <= (tupled | rev) and (l in tupled) != (r in tupled) and n.orelse:
+                def stores(block):
+                    out_ = []
+                    for c in ast.walk(ast.Module(body=block, type_ignores=[])):
+                        if isinstance(c, ast.Call) and isinstance(c.func, ast.Attribute) and c.func.attr == 'append' and isinstance(c.func.value, ast.Subscript) \
+                                and src(c.func.value.value) == 'out' and len(c.args) == 1:
+                            out_.append((src(c.func.value.slice), src(c.args[0])))
+                    return out_
+                sb, so = stores(n.body), stores(n.orelse)
+                if len(sb) == 1 and len(so) == 1:
+                    fwd = [x for x in (sb[0], so[0]) if x[0] in tupled]
+                    bwd = [x for x in (sb[0], so[0]) if x[0] in rev]
+                    shape = len(fwd) == 1 and len(bwd) == 1 and fwd[0][1] == 'frag' and bwd[0][1] == 'frag[::-1]'
+    ck.decide(shape, R, 'direction-canonical', None,
+              '_fragments no longer canonicalises a path against its reverse on identifier tuples (key tuple vs its reverse, the chain reversed with the key)', **loc)
     keys = [n for n in ast.walk(f.node) if isinstance(n, ast.Subscript) and src(n.value) == 'out' and isinstance(n.ctx, ast.Load)]
-    ck.decide({src(k.slice) for k in keys} == {'var', 'rev_var'}, R, 'keys-are-identifiers', sorted(src(k.slice) for k in keys),
-              f'_fragments keys its dictionary by {sorted(src(k.slice) for k in keys)}; only identifier tuples (var / rev_var) are numbering independent',
-              file=f.file, line=f.lineno, func=f.qualname)
-    var0 = [n for n in ast.walk(f.node) if isinstance(n, ast.Assign) and src(n.targets[0]) == 'var' and isinstance(n.value, ast.List)]
-    ck.decide(bool(var0) and src(var0[0].value) == '[atoms[frag[0]]]', R, 'var-seed', src(var0[0].value) if var0 else None,
-              '_fragments seeds the key with something else than the identifier of the first atom', file=f.file, line=f.lineno)
-    apps = sorted(src(n.args[0]) for n in ast.walk(f.node) if isinstance(n, ast.Call) and src(n.func) == 'var.append')
-    ck.decide(apps == ['atoms[y]', 'int(bonds[x][y])'], R, 'var-parts', apps, f'_fragments appends {apps} to the key; expected bond order and atom identifier',
-              file=f.file, line=f.lineno)
+    ck.decide(bool(keys) and {src(k.slice) for k in keys} <= (tupled | rev), R, 'keys-are-identifiers', sorted(src(k.slice) for k in keys),
+              f'_fragments keys its dictionary by {sorted(src(k.slice) for k in keys)}; only the identifier tuple and its reverse are numbering independent', **loc)
+    var0 = [v for k in builders for v in defs[k] if isinstance(v, ast.List)]
+    ck.decide(len(var0) == 1 and src(var0[0]) == '[atoms[frag[0]]]', R, 'var-seed', src(var0[0]) if var0 else None,
+              '_fragments seeds the key with something else than the identifier of the first atom', **loc)
+    apps = sorted(src(n.args[0]) for n in ast.walk(f.node) if isinstance(n, ast.Call) and isinstance(n.func, ast.Attribute) and n.func.attr == 'append'
+                  and src(n.func.value) in builders)
+    ck.decide(apps == ['atoms[y]', 'int(bonds[x][y])'], R, 'var-parts', apps, f'_fragments appends {apps} to the key; expected bond order and atom identifier', **loc)
     hs = repo.func('chython.algorithms.fingerprints.linear:LinearFingerprint.linear_hash_set')
     ck.decide('hash((*tpl, cnt))' in src(hs.node) and 'range(min(len(count), number_bit_pairs))' in src(hs.node), R, 'count-aware-hash', None,
               'linear_hash_set no longer hashes (identifier tuple, occurrence index) up to the multiplicity cap', file=hs.file, line=hs.lineno)
@@ -357,7 +386,18 @@ def rule_morgan_layers(ck, repo, R):
     app = [n for n in ast.walk(loops[0]) if isinstance(n, ast.Call) and src(n.func) == 'out.append']
     ck.decide(len(app) == 1, R, 'one-layer-per-round', len(app), f'{len(app)} appends per round', file=f.file)
     ret = [n for n in ast.walk(f.node) if isinstance(n, ast.Return)]
-    ck.decide(len(ret) == 1 and src(ret[0].value).replace(' ', '') in ('out[-(max_radius-min_radius+1):]', 'out[min_radius-1:]', 'out[min_radius-1:max_radius]'), R, 'slice',
+    from .r_query import _ev, _Unknown
+    from .astutil import expand_locals, single_defs
+    slice_ok = False
+    if len(ret) == 1 and ret[0].value is not None:
+        e = expand_locals(ret[0].value, f.node, only=set(single_defs(f.node)) - {'out'})
+        try:
+            # with one layer per radius, out == [layer 1, .., layer max_radius]: the returned expression must select layers min_radius..max_radius
+            slice_ok = all(list(_ev(e, {'out': list(range(1, hi + 1)), 'min_radius': lo, 'max_radius': hi})) == list(range(lo, hi + 1))
+                           for lo in range(1, 5) for hi in range(lo, 6))
+        except _Unknown as x:
+            raise AnalysisError(f'_morgan_hash_dict: returned expression `{src(ret[0].value)}` not understood ({x})')
+    ck.decide(slice_ok, R, 'slice',
               src(ret[0].value) if ret else None, f'returned slice `{src(ret[0].value) if ret else None}` does not select radii min_radius..max_radius', file=f.file)
     ck.floor(R, 4)
 
@@ -373,16 +413,26 @@ def rule_chain_length_window(ck, repo, R):
     loops = [l for l in ast.walk(f.node) if isinstance(l, ast.While)]
     ck.require(len(loops) == 1, '_chains: growth loop not found')
     lp = loops[0]
-    size_names = {a.targets[0].id for a in ast.walk(lp) if isinstance(a, ast.Assign) and isinstance(a.targets[0], ast.Name) and isinstance(a.value, ast.Call) and src(a.value.func) == 'len'}
+    from .astutil import expand_locals, single_defs
+    # the popped path and the list of its one-atom extensions: len(<popped>) = SIZE - 1, len(<extension>) = SIZE
+    now_names = {a.targets[0].id for a in ast.walk(lp) if isinstance(a, ast.Assign) and isinstance(a.targets[0], ast.Name)
+                 and isinstance(a.value, ast.Call) and src(a.value.func).endswith('.popleft')}
+    ext_names = {a.targets[0].id for a in ast.walk(lp) if isinstance(a, ast.Assign) and isinstance(a.targets[0], ast.Name)
+                 and isinstance(a.value, ast.ListComp) and isinstance(a.value.elt, ast.BinOp) and isinstance(a.value.elt.op, ast.Add)
+                 and src(a.value.elt.left) in now_names and isinstance(a.value.elt.right, ast.Tuple) and len(a.value.elt.right.elts) == 1}
+    ck.require(now_names and ext_names, '_chains: popped path / its extensions not found')
 
     class S(ast.NodeTransformer):
         def visit_Call(self, node):
-            if src(node.func) == 'len':
-                return ast.Name(id='SIZE', ctx=ast.Load())
+            if src(node.func) == 'len' and len(node.args) == 1:
+                a = node.args[0]
+                if isinstance(a, ast.Name) and a.id in now_names:
+                    return ast.BinOp(left=ast.Name(id='SIZE', ctx=ast.Load()), op=ast.Sub(), right=ast.Constant(value=1))
+                if isinstance(a, ast.Subscript) and src(a.value) in ext_names:
+                    return ast.Name(id='SIZE', ctx=ast.Load())
+                if isinstance(a, ast.Name) and a.id not in now_names and a.id not in ext_names:
+                    return ast.Name(id='SIZE', ctx=ast.Load())  # the loop variable over the extensions
             return self.generic_visit(node)
-
-        def visit_Name(self, node):
-            return ast.Name(id='SIZE', ctx=ast.Load()) if node.id in size_names else node
     parents = {}
     for p_ in ast.walk(lp):
         for ch in ast.iter_child_nodes(p_):
@@ -397,7 +447,7 @@ def rule_chain_length_window(ck, repo, R):
             if isinstance(p_, ast.If) and any(calls[0] in ast.walk(s_) for s_ in p_.body):
                 t = p_.test
                 if any(isinstance(x, ast.Name) and x.id in ('min_radius', 'max_radius') for x in ast.walk(t)):
-                    tests.append(S().visit(_copy.deepcopy(t)))
+                    tests.append(S().visit(expand_locals(t, f.node, only=set(single_defs(f.node)) - now_names - ext_names)))
             p_ = parents.get(p_)
         return tests, calls[0]
     for what, pred, expect in (('grow', lambda c: src(c.func) == 'queue.extend', lambda s, lo, hi: s < hi),
